@@ -6,7 +6,7 @@
 (* per scenario.  Parameters come from the environment (IOEnv):            *)
 (*   GEN_FAMILY, GEN_SEED, GEN_N (candidates), GEN_CHUNKS, GEN_OUT (dir)   *)
 (***************************************************************************)
-EXTENDS PegSem, Json, IOUtils
+EXTENDS Analysis, Json, IOUtils
 
 FAMILY == IOEnv.GEN_FAMILY
 SEED   == atoi(IOEnv.GEN_SEED)
@@ -204,6 +204,36 @@ GenMemo(s, cx) ==
                   [name |-> "N", body |-> MemoLeaf(H(s, 65), cx)] >>
   IN NumberActions(Prune([rules |-> rules]))
 
+(* ---------- the "diag" family: grammars that need not be well formed ------------------------ *)
+DiagAtom(s, cx) ==
+  LET k == Pick(s, 11, 12) IN
+  CASE k \in 0..4 -> ConsAtom(s, cx)
+    [] k \in 5..8 -> Ref(RuleName(1 + Pick(s, 12, cx.n)))                 \* any rule, also itself and earlier ones
+    [] k = 9 -> Ref(<<"U", "V">>[1 + Pick(s, 13, 2)])                     \* a name without definition
+    [] k = 10 -> Nil
+    [] k = 11 -> Pred(TRUE)
+RECURSIVE DiagE(_, _, _)
+DiagE(s, d, cx) ==
+  IF d = 0 THEN DiagAtom(s, cx)
+  ELSE LET k == Pick(s, 21, 20) sub(j) == DiagE(H(s, 100 + j), d - 1, cx) IN
+       CASE k \in 0..3 -> DiagAtom(s, cx)
+         [] k \in 4..7 -> SeqE(<<sub(1), sub(2)>>)
+         [] k \in 8..10 -> AltE(<<sub(1), sub(2)>>)
+         [] k = 11 -> AltE(<<sub(1), sub(2), sub(3)>>)
+         [] k = 12 -> Opt(sub(1)) [] k = 13 -> Star(sub(1)) [] k = 14 -> Plus(sub(1))
+         [] k = 15 -> And(sub(1)) [] k = 16 -> Not(sub(1)) [] k = 17 -> Cap(sub(1))
+         [] k = 18 -> SeqE(<<sub(1), sub(2), sub(3)>>)
+         \* a choice whose verdict "consumes" depends on all alternatives, in front of a rule reference
+         [] k = 19 -> LET nul == CASE Pick(s, 22, 3) = 0 -> Opt(sub(1)) [] Pick(s, 22, 3) = 1 -> Star(ConsAtom(H(s, 23), cx)) [] OTHER -> sub(1)
+                          alt == IF Pick(s, 24, 2) = 0 THEN AltE(<<nul, ConsAtom(H(s, 25), cx)>>) ELSE AltE(<<ConsAtom(H(s, 25), cx), nul>>)
+                      IN SeqE(<<alt, Ref(RuleName(1 + Pick(s, 26, cx.n)))>>)
+GenDiag(s, cx0) ==
+  LET n == 1 + Pick(s, 31, 5)
+      dup == Pick(s, 32, 6) = 0 /\ n >= 3     \* the last rule repeats the name of the second
+      rules == [i \in 1..n |-> [name |-> IF dup /\ i = n THEN RuleName(2) ELSE RuleName(i),
+                                body |-> DiagE(H(s, 40 + i), 1 + Pick(s, 50 + i, 2), [cx0 EXCEPT !.self = i, !.n = n])]]
+  IN [rules |-> rules]
+
 (* ---------- inputs ------------------------------------------------------- *)
 RECURSIVE AllStrings(_, _)
 AllStrings(alpha, n) ==
@@ -278,6 +308,10 @@ Fam ==
          [cx |-> [alpha |-> <<97, 98>>, acts |-> TRUE, caps |-> TRUE, preds |-> FALSE, sugar |-> FALSE, capnull |-> FALSE, maxrules |-> 3, self |-> 1, n |-> 1],
           depth |-> 0, optsets |-> <<"">>, exhaust |-> 4, alphaIn |-> <<97, 98>>, extraAlpha |-> <<97, 98, 99>>, nextra |-> 20,
           collect |-> [toks |-> TRUE, exec |-> TRUE, ast |-> FALSE, msg |-> FALSE], entries |-> FALSE, memoOff |-> TRUE, act |-> "full"]
+    [] FAMILY = "diag" ->   \* C15: generation only, with and without -strict
+         [cx |-> [alpha |-> ABC, acts |-> FALSE, caps |-> TRUE, preds |-> TRUE, sugar |-> FALSE, capnull |-> FALSE, maxrules |-> 5, self |-> 1, n |-> 1],
+          depth |-> 2, optsets |-> <<"", "t", "ist">>, exhaust |-> 0, alphaIn |-> ABC, extraAlpha |-> ABC, nextra |-> 0,
+          collect |-> [toks |-> FALSE, exec |-> FALSE, ast |-> FALSE, msg |-> FALSE], entries |-> FALSE, memoOff |-> FALSE, act |-> "full"]
     [] FAMILY = "noast" ->  \* C07
          [cx |-> [alpha |-> ABC, acts |-> TRUE, caps |-> TRUE, preds |-> TRUE, sugar |-> FALSE, capnull |-> TRUE, maxrules |-> 3, self |-> 1, n |-> 1],
           depth |-> 3, optsets |-> All8, exhaust |-> 3, alphaIn |-> ABC, extraAlpha |-> <<97, 98, 99, 100>>, nextra |-> 10,
@@ -327,16 +361,19 @@ Plan(G) ==
 
 Candidate(n) == IF FAMILY = "switch" THEN GenSwitch(H(H(SEED, n), n \div 1499), Fam.cx)
                 ELSE IF FAMILY = "memo" THEN GenMemo(H(H(SEED, n), n \div 1499), Fam.cx)
+                ELSE IF FAMILY = "diag" THEN GenDiag(H(H(SEED, n), n \div 1499), Fam.cx)
                 ELSE GenGrammar(H(H(SEED, n), n \div 1499), Fam.cx, Fam.depth)
 
 Scenario(n) ==
   LET G == Candidate(n) IN
   [id |-> n, family |-> FAMILY, seed |-> SEED, grammar |-> G, text |-> Render(G, Style(G)),
-   optsets |-> Fam.optsets, inputs |-> IF FAMILY = "bytes" THEN ByteInputs(H(SEED, n + 17)) ELSE Inputs(H(SEED, n + 17), G),
-   plan |-> Plan(G), hist |-> Hists(H(SEED, n + 29), Len(Inputs(H(SEED, n + 17), G))),
-   collect |-> Fam.collect, allu |-> FAMILY = "reuse", norun |-> FALSE, actstyle |-> Style(G).act]
+   optsets |-> Fam.optsets,
+   inputs |-> IF FAMILY = "diag" THEN <<>> ELSE IF FAMILY = "bytes" THEN ByteInputs(H(SEED, n + 17)) ELSE Inputs(H(SEED, n + 17), G),
+   plan |-> IF FAMILY = "diag" THEN <<>> ELSE Plan(G),
+   hist |-> IF FAMILY = "diag" THEN <<>> ELSE Hists(H(SEED, n + 29), Len(Inputs(H(SEED, n + 17), G))),
+   collect |-> Fam.collect, allu |-> FAMILY = "reuse", norun |-> FAMILY = "diag", actstyle |-> Style(G).act]
 
-IsWF(n) == WFB(BodyMap(Core(Candidate(n))))
+IsWF(n) == FAMILY = "diag" \/ WFB(BodyMap(Core(Candidate(n))))
 
 RECURSIVE Collect(_, _)
 Collect(c, n) ==   \* scenarios of chunk c: candidates n = c, c + CHUNKS, ...
